@@ -427,6 +427,8 @@ PINNED = {
     "plainfile_init": (["file_path", "password", "hash_alg", "search_paths", "pss_padding"], True, "kwargs"),
     "proxy_init": (["host", "port", "url_prefix", "timeout", "prehash"], True, "kwargs"),
     "cert_pad": (0, [0], True),
+    "rsa_pub_signature_size": "(key_size / (8 : Nat))",
+    "plainfile_siglen": "self.private_key.signature_size",
 }
 
 
@@ -461,6 +463,7 @@ def gen_KeysTables() -> None:
 
     rsa_signature_size = get("rsa_signature_size", lambda: g_ret_expr(tree, "PrivateKeyRsa.signature_size", {"self.key.key_size": "key_size"}))
     key_len_curve = get("key_len_curve", lambda: g_key_len_curve(tree, curves))
+    rsa_pub_signature_size = get("rsa_pub_signature_size", lambda: g_ret_expr(tree, "PublicKeyRsa.signature_size", {"self.key.key_size": "key_size"}))
     try:
         sp_tree, ut_tree = parse(SP_SRC), parse(UT_SRC)
     except (OSError, SyntaxError) as exc:
@@ -488,6 +491,15 @@ def gen_KeysTables() -> None:
         cert_tree = None
         meta["fallback"]["certificate"] = f"unreadable: {exc}"
     cert_pad = get2("cert_pad", lambda: g_cert_pad(cert_tree), cert_tree)
+
+    def g_plainfile_siglen():
+        fn = find(sp_tree, "PlainFileSP.signature_length")
+        b = body_wo_doc(fn)
+        if len(b) != 1 or not isinstance(b[0], ast.Return) or _dotted(b[0].value) is None:
+            raise Shape("PlainFileSP.signature_length body")
+        return _dotted(b[0].value)
+
+    plainfile_siglen = get2("plainfile_siglen", g_plainfile_siglen, sp_tree)
 
     def strlist(xs):
         return "[" + ", ".join('"%s"' % x for x in xs) + "]"
@@ -519,6 +531,10 @@ def gen_KeysTables() -> None:
          f"def verifyCoordinateSize (key_size : Nat) : Nat := {verify_coord}", "",
          "/-- `PrivateKeyRsa.signature_size` (also `PublicKeyRsa.signature_size`) -/",
          f"def rsaSignatureSize (key_size : Nat) : Nat := {rsa_signature_size}", "",
+         "/-- `PublicKeyRsa.signature_size` (generated separately from the private key's) -/",
+         f"def rsaPubSignatureSize (key_size : Nat) : Nat := {rsa_pub_signature_size}", "",
+         "/-- what `PlainFileSP.signature_length` returns (attribute path) -/",
+         f"def plainFileSigLenAttr : String := \"{plainfile_siglen}\"", "",
          "/-- module-level `get_ecc_curve(key_length)` (used by nxpcrypto `reconstruct_key`): curve value or `none` = SPSDKError -/",
          f"def keyLenCurve (key_length : Nat) : Option String :=\n  {key_len_curve}", "",
          "/-- `utils.get_hash_type_from_signature_size` -/",
